@@ -556,7 +556,10 @@ func (x *Exec) symArrElem(st *State, sa *SymArr, idx *Term) Value {
 func (x *Exec) symLeaf(st *State, t types.Type, name string, idx *Term, pre ...*Term) Value {
 	sargs := append(append([]*Term{}, pre...), idx)
 	if d := isSDFIface(t); d != 0 {
-		fail("symbolic array of shapes needs element abstraction (use concrete operand count)")
+		// element of a symbolic array of shapes: a member of the family of abstract shapes of
+		// that array; which shape it is, its box and whether it is nil depend on the index only
+		return &AbsObj{name: "arr_" + sanitize(name), typ: t, dim: d, fam: true, idx: sargs, stamp: cellCtr,
+			nilT: x.ufApp(st, "nil_arr_"+sanitize(name), SBool, sargs)}
 	}
 	switch u := t.Underlying().(type) {
 	case *types.Basic:
@@ -1231,11 +1234,25 @@ func (x *Exec) invoke(st *State, recv Value, m *types.Func, args []Value, depth 
 }
 
 func (x *Exec) absObjCall(st *State, o *AbsObj, method string, args []Value) []Out {
+	if o.fam && x.specMode == 0 && o.nilT != nil {
+		// executing code: a call on a nil element panics, the path continues for a non-nil one
+		st.assume(mkNot(o.nilT))
+	}
 	switch method {
 	case "BoundingBox":
+		if o.fam {
+			it := o.typ.Underlying().(*types.Interface)
+			for i := 0; i < it.NumMethods(); i++ {
+				if m := it.Method(i); m.Name() == "BoundingBox" {
+					rt := m.Type().(*types.Signature).Results().At(0).Type()
+					return []Out{{st: st, vals: []Value{x.ufResult(st, "BB_"+o.name, rt, o.idx)}}}
+				}
+			}
+			fail("abstract shape family %s: no BoundingBox method", o.name)
+		}
 		return []Out{{st: st, vals: []Value{o.bb}}}
 	case "Evaluate":
-		var flat []*Term
+		flat := append([]*Term{}, o.idx...)
 		flatten(args[0], &flat)
 		r := x.ufApp(st, "Ev_"+o.name, SReal, flat)
 		return []Out{{st: st, vals: []Value{r}}}
